@@ -46,10 +46,16 @@ class RepoModule:
 
 class ObjVal:
     """Instance of a repository class with concrete shape."""
+    _n = [0]
 
     def __init__(self, cls):
         self.cls = cls
         self.fields = {}
+        ObjVal._n[0] += 1
+        self.ident = '%s#%d' % (cls.name, ObjVal._n[0])
+
+    def as_val(self):
+        return S.named_const(self.ident)
 
     def __repr__(self):
         return '<%s object>' % self.cls.name
@@ -105,6 +111,8 @@ class World:
         self.opaque_globals = {}    # (module, name) -> value override
         self.opaque_sigs = {}       # method name -> fn(recv, args, kw, it)
         self.opaque_attrs = {}      # attribute name -> fn(recv, it)
+        self.ctor_models = {}       # class name -> fn(args, kwargs, it)
+        self.module_state = {}      # (module, name) -> value of a `global`
         self.loop_contracts = {}    # set per verification
         self.current_contract = None
         self.inlined = set()
@@ -131,6 +139,8 @@ class World:
     def global_name(self, module, name, it):
         if module is not None:
             key = (module.name, name)
+            if key in self.module_state:
+                return self.module_state[key]
             if key in self.opaque_globals:
                 return self.opaque_globals[key]
             ent = module.top.get(name)
@@ -244,6 +254,8 @@ class World:
         return None, None
 
     def construct(self, cls, args, kwargs, it, node):
+        if cls.name in self.ctor_models:
+            return self.ctor_models[cls.name](args, kwargs, it)
         if 'BaseException' in cls.mro_names(self) or cls.module == 'builtins':
             return ExcVal(cls, tuple(args), getattr(node, 'lineno', None))
         for m in self.method_models:
@@ -344,6 +356,10 @@ class World:
                     continue
                 terms.append(r)
             return z3.And(*terms) if terms else True
+        if isinstance(a, ObjVal) and isinstance(b, SVal):
+            return a.as_val() == b.t
+        if isinstance(b, ObjVal) and isinstance(a, SVal):
+            return b.as_val() == a.t
         if isinstance(a, (ObjVal, FuncRef, ClassRef)) or isinstance(
                 b, (ObjVal, FuncRef, ClassRef)):
             return a is b
@@ -358,30 +374,39 @@ class World:
             return True
         return NotImplemented
 
-    def opaque_sig(self, name, ret='Val', nargs=None):
+    def opaque_sig(self, name, ret='Val', log=False):
         """Declare method `name` of opaque objects as an uninterpreted
-        function of the receiver and its (boxed) arguments."""
+        function of the receiver and its (boxed) arguments; with log=True
+        every call is appended to the ghost call log (effectful callee)."""
         from . import models
 
         def call(recv, args, kw, it):
-            if kw:
-                raise Unsupported('keywords to opaque method %s' % name)
             self.trusted_used.add('opaque method .%s() uninterpreted' % name)
-            return models.apply_uf('m.' + name, (recv,) + tuple(args), ret)
+            sym = 'm.' + name
+            extra = ()
+            if kw:
+                sym += '$' + '$'.join(sorted(kw))
+                extra = tuple(kw[k] for k in sorted(kw))
+            r = models.apply_uf(sym, (recv,) + tuple(args) + extra, ret)
+            if log:
+                it.calls.append((sym, (recv,) + tuple(args) + extra, r))
+            return r
         self.opaque_sigs[name] = call
 
-    def delitem_model(self, obj, idx, it, node):
-        if isinstance(obj, dict) and not S.is_sym(idx):
-            if idx not in obj:
-                it.raise_('KeyError', idx, node=node)
-            del obj[idx]
-            return
-        if isinstance(obj, SMapCell):
-            if not it.branch(obj.m.has(idx)):
-                it.raise_('KeyError', idx, node=node)
-            obj.delete(idx)
-            return
-        raise Unsupported('del item of %r' % (obj,))
+    def opaque_ctor(self, clsname):
+        """Constructor of class `clsname` as an uninterpreted allocation."""
+        from . import models
+
+        def make(args, kwargs, it):
+            sym = 'new:' + clsname
+            extra = ()
+            if kwargs:
+                sym += '$' + '$'.join(sorted(kwargs))
+                extra = tuple(kwargs[k] for k in sorted(kwargs))
+            r = models.apply_uf(sym, tuple(args) + extra, 'Val')
+            it.calls.append((sym, tuple(args) + extra, r))
+            return r
+        self.ctor_models[clsname] = make
 
     def unpack_model(self, v, n, it, node):
         if isinstance(v, SVal):
